@@ -396,6 +396,40 @@ func (it *Item) Run(hook func(string)) *Result {
 	return Generate(data, o, pkg, hook)
 }
 
+// RunAgain generates once more from the *ogen.Spec a previous successful run parsed (no second parse): what a
+// generation writes into the parsed document shows in the next one.
+func (it *Item) RunAgain(prev *Result, hook func(string)) (res *Result) {
+	_, o, err := it.Options()
+	if err != nil || prev == nil || prev.Spec == nil {
+		return &Result{Stage: "read", Err: err, FS: NewRecFS()}
+	}
+	pkg := it.Package
+	if pkg == "" {
+		pkg = "api"
+	}
+	res = &Result{Stage: "ir", FS: NewRecFS(), Spec: prev.Spec}
+	res.FS.Hook = hook
+	defer func() {
+		if p := recover(); p != nil {
+			res.Panic = fmt.Sprint(p)
+			res.PanicAt = OgenFrames(string(debug.Stack()), 4)
+		}
+	}()
+	g, err := gen.NewGenerator(prev.Spec, o)
+	if err != nil {
+		res.Err = err
+		return
+	}
+	res.Gen = g
+	res.Stage = "write"
+	if err := g.WriteSource(res.FS, pkg); err != nil {
+		res.Err = err
+		return
+	}
+	res.Stage = "ok"
+	return
+}
+
 // GenerateIR runs ogen.Parse + gen.NewGenerator only.
 func GenerateIR(spec []byte, opts gen.Options) (res *Result) {
 	res = &Result{Stage: "parse", FS: NewRecFS()}
